@@ -70,6 +70,8 @@ SCHEMA = {
     "vrfs.<*>.import-route-targets": ("L", "1,2"),
     "protocols.bgp.neighbors.<*:ip>.description": ("S", "2,3,4"),  # typed wildcard: map key = decoded IP
     "protocols.bgp.ipv4-unicast.networks.<*:prefix>": ("E", "2,3,4,5"),   # map entry holding *BGPNetwork, set with &BGPNetwork{}
+    "interfaces.<*>": ("O", "1,2"),          # whole map entry, value = *InterfaceConfig (one of the 44 struct-valued patterns)
+    "vrfs.<*>": ("O", "1,2"),                # value = *ip.VRFSConfig
     "aaa.nas_identifier": ("S", "-"),
     "aaa.nas_ip": ("S", "-"),
     "_internal.punt.<*>.arp": ("N", "-"),
@@ -99,6 +101,7 @@ VALUES = {
     "L": ["l" + "10.0.0.1/24".encode().hex(), "l" + "10.0.0.1/24".encode().hex() + ":" + "192.0.2.1/32".encode().hex(),
           "l" + "65000:1".encode().hex(), hx("10.0.0.1/24"), "i5", "b1"],
     "E": ["p", "p", "p", hx("x"), "i1"],
+    "O": ["o-", "i5", hx("x"), "p"],       # besides objects (obj_value): empty struct and wrong-typed values
     "A": [hx("edited"), hx("x"), hx("orig"), "b1"],
 }
 _uniq = [1000]
@@ -170,6 +173,18 @@ def add_plugin_patterns(rng, pats, deps, frr):
         frr.append(rng.random() < 0.3)
 
 
+OBJ_FIELDS = {"interfaces.<*>": [("description", lambda r: hx(r.choice(["up", "core", "x y"]))), ("mtu", lambda r: "i%d" % r.choice([1500, 9000, 68])),
+                                 ("enabled", lambda r: "b1"), ("unnumbered", lambda r: hx("lo0"))],
+              "vrfs.<*>": [("description", lambda r: hx(r.choice(["cust", "mgmt"]))), ("rd", lambda r: hx("65000:1"))]}
+
+
+def obj_value(rng, pat, path):
+    fs = ["%s=%s" % (n, g(rng)) for n, g in OBJ_FIELDS[pat] if rng.random() < 0.6]
+    if pat == "interfaces.<*>" and rng.random() < 0.7:
+        fs.append("name=" + hx(path.split(".")[1]))
+    return "o" + ";".join(sorted(fs)) if fs else "o-"
+
+
 def pick_value(rng, pat, guard):
     if pat in PLUGIN:
         return plugin_value(rng, pat)
@@ -181,7 +196,7 @@ def good_value(rng, pat):
         return plugin_value(rng, pat)
     return {"I": "i%d" % rng.choice([1500, 9000, 1400, 68]), "U": "u%d" % rng.choice([1, 64, 65000]),
             "S": hx(rng.choice(["a", "core", "10.0.0.1"])), "B": "b1", "N": "b1",
-            "L": "l" + rng.choice(["10.0.0.1/24", "192.0.2.7/32"]).encode().hex(), "E": "p"}[SCHEMA[pat][0]]
+            "L": "l" + rng.choice(["10.0.0.1/24", "192.0.2.7/32"]).encode().hex(), "E": "p", "O": "o-"}[SCHEMA[pat][0]]
 
 
 def fill(pat, vals):
@@ -204,6 +219,8 @@ def fill(pat, vals):
 def rand_ops(rng, pats, deps, nops, guard=None):
     """session-structured random walk; '@' is the session holding the lock"""
     ops = []
+    replaced = set()
+    has_obj = any(SCHEMA[p][0] == "O" for p in pats)     # the walker would emit whole entries: no LoadConfig / start-up
 
     def sid():
         return "@" if rng.random() < 0.9 else str(rng.choice([0, 1, 2, 3, 4, 7]))
@@ -217,6 +234,13 @@ def rand_ops(rng, pats, deps, nops, guard=None):
                     one_set(d, vals, depth + 1)
         p = pats[i]
         path = fill(p, vals)
+        if SCHEMA[p][0] == "O":
+            replaced.add(path)
+            if rng.random() < 0.8:
+                ops.append("s %s %s %s 0" % (sid(), path, obj_value(rng, p, path)))
+                return
+        if any(path.startswith(r + ".") for r in replaced):
+            return      # no leaf Set below an entry that was set as a whole earlier in the case (NewValue aliasing)
         if guard and p == "interfaces.<*>.mtu" and rng.random() < 0.6:
             path = "interfaces.%s.mtu" % guard[0]
             v = rng.choice(["i%d" % (guard[1] + 12), "i%d" % (guard[1] + 11), "i%d" % (guard[1] + 13), "i0",
@@ -235,14 +259,14 @@ def rand_ops(rng, pats, deps, nops, guard=None):
             one_set(rng.randrange(len(pats)), [rng.choice(WILDS), rng.choice(WILDS)])
         ops.append("m %s %s" % (sid(), rng.choice(FAULTS)))
 
-    if not guard and rng.random() < 0.15:
+    if not guard and not has_obj and rng.random() < 0.15:
         ops.append(boot_op(rng.choice(["0:-"] * 6 + ["1:-", "2:-", "0:t", "0:s", "0:R", "4:q1", "0:G", "0:G", "0:Ru"])))
     while len(ops) < nops:
         r = rng.random()
-        if r < 0.03:
+        if r < 0.03 and not has_obj:
             # with the MSS guard the model's validation parameter comes from the initial group: keep the groups
             ops.append(load_op(sid(), "k" if guard else rng.choice(["c", "n", "k", "m"])))
-        elif r < 0.04 and not guard:
+        elif r < 0.04 and not guard and not has_obj:
             ops.append(boot_op(rng.choice(FAULTS)))
         elif r < 0.35:
             block()
@@ -345,6 +369,20 @@ def boundary_cases():
     # the daemon is down: reload and restoring reload both fail
     for f in ["0:Ru", "0:ru", "0:su", "0:u", "0:Rsu"]:
         out.append(reg3 + ["ops"] + base + ["m 1 " + f, "m 1 0:-", "c", "s 2 protocols.ospf.router-id %s 0" % hx("3.3.3.3"), "m 2 " + f])
+    # whole-entry Set (struct-valued pattern): the entry is replaced, leaves and sub-containers below it go, hidden
+    # flags included; then no-op re-Set (DeepEqual), wrong-typed values, dependency on the entry, apply failure
+    rego = ["reg", "4", "interfaces.<*>", "O", "1,2", "-", "0", "interfaces.<*>.mtu", "I", "1,2", "0", "0",
+            "interfaces.<*>.ipv6.enabled", "B", "1,2,3", "0", "0", "protocols.ospf.enabled", "B", "2", "-", "1"]
+    o1 = "odescription=%s;mtu=i9000;name=%s" % (hx("core"), hx("eth1"))
+    out.append(rego + ["ops", "c", "s @ interfaces.eth1.mtu i1500 0", "m @ 0:-", "c", "s @ interfaces.eth1 %s 0" % o1, "m @ 0:-",
+                       "c", "s @ interfaces.eth1.ipv6.enabled b1 0", "s @ interfaces.eth2.mtu i1400 0", "m @ 0:-",
+                       "c", "s @ interfaces.eth1 %s 0" % o1, "m @ 2:-", "m @ 0:-", "c", "s @ interfaces.eth2 o- 0",
+                       "s @ interfaces.eth1 i5 0", "s @ interfaces.eth1 %s 0" % hx("x"), "m @ 0:v", "c"])
+    out.append(rego + ["ops", "c", "s @ interfaces.eth1 %s 0" % o1, "s @ interfaces.eth1 %s 0" % o1, "m @ 0:-",
+                       "c", "s @ interfaces.eth1 %s 0" % o1, "m @ 0:-", "c", "s @ interfaces.eth1 oenabled=b1 0", "m @ 0:s", "m @ 0:-"])
+    for col in (False,):
+        out.append(rego + recipe_tokens(("deep", col)) + ["ops", "c", "s @ interfaces.eth1 %s 0" % o1, "m @ 0:-", "c",
+                   "s @ interfaces.eth1.mtu i1 0", "m @ 0:-"])
     # the routing daemon: reload fails cleanly / after the daemon took the candidate; a Rollback call fails
     for f in ["0:r", "0:R", "0:Rq1", "0:rq2", "3:q1", "0:tq2", "0:sq1"]:
         out.append(reg3 + ["ops"] + base + ["m 1 " + f, "m 1 0:-", "c", "s 2 interfaces.eth1.mtu i1400 0", "m 2 0:-",
@@ -354,7 +392,7 @@ def boundary_cases():
 
 def conc_case(rng):
     """2-3 threads race create/set/commit/close on their own sessions (no faults, no reload script)"""
-    pats = rng.sample([p for p in PATS if SCHEMA[p][0] != "N"], rng.randint(2, 4))
+    pats = rng.sample([p for p in PATS if SCHEMA[p][0] not in "NO"], rng.randint(2, 4))
     deps = [[] for _ in pats]
     if rng.random() < 0.4 and len(pats) > 1:
         deps[1] = [0]
@@ -632,7 +670,7 @@ def monitor(case, line, tolerate=None):
                     setp = [x.split("=")[0] for x in okap] + phantom
                     for e in old ^ new:
                         p = e.split("=")[0].rstrip("/")
-                        if not any(q == p or q.startswith(p + ".") for q in setp):
+                        if not any(q == p or q.startswith(p + ".") or p.startswith(q + ".") for q in setp):
                             return "step %d: successful commit changed %s which was not set in the session" % (i, e)
         R = d.get("R", R)
         C = d.get("C", C)
@@ -774,6 +812,7 @@ def shrink(case):
 def distribution(cases, impl):
     d = {"ops": {}, "results": {}, "fault_plans": {}, "commits_reaching_apply": 0, "history_len_max": 0,
          "guard_cases": 0}
+    d["whole_entry_sets"] = sum(1 for c in cases for t in c.split(" ") if t.startswith("o") and ("=" in t or t == "o-"))
     d["concurrent_cases"] = 0
     d["concurrent_commits_ok"] = 0
     for c, o in zip(cases, impl):
